@@ -24,7 +24,8 @@ RULE = ("base: 1-8 distinct atoms with neutron data (ions, isotopes, D/T, energy
         "density x k (k in 1e-9..1e9; SLDs and cross sections x k, penetration / k, rel 1e-12); all counts x k as a bracketed "
         "string (k = 1e-12..1e12 in the grammar's decimals) and as a dict (k in 1e-12..1e12) (unchanged, rel 1e-11); a regrouped variant = permutation, split counts, 1-3 nesting "
         "levels of implicit/explicit groups with multipliers, same multiset verified in Fractions (unchanged, rel 1e-11); "
-        "dict route vs string route; energy=E vs wavelength=neutron_wavelength(E) (rel 1e-12); vector call of length "
+        "dict route vs string route; a Formula object with another preset density called with natural_density= (vs the "
+        "string) and without a density keyword (its own density; object unchanged); energy=E vs wavelength=neutron_wavelength(E) (rel 1e-12); vector call of length "
         "1..12 (list/tuple/float array, integer-valued list/tuple/int32/int64 array) vs the scalar calls at the float values (shape exact, rel 1e-14); the same vector call repeated straight away at "
         "density x k, and again (twice) after the caller overwrote that list/array in place with other wavelengths "
         "(entries vs scalar calls and vs the density relation: a result must not depend on earlier calls); every result: imaginary and incoherent SLD, "
@@ -117,6 +118,12 @@ def _scat(obj, rho, **kw):
         return ng.flatten(E["pt"].neutron_scattering(obj, density=rho, **kw))
 
 
+def _call(obj, **kw):
+    E = ng.env()
+    with unchanged("c04", {"kind": "call", "args": repr(kw)[:200]}, **kw):
+        return ng.flatten(E["pt"].neutron_scattering(obj, **kw))
+
+
 def nonneg(res, case, what):
     np = ng.env()["np"]
     for o in OUTPUTS[1:]:
@@ -202,11 +209,30 @@ def check_relations(ctx, v):
     r7 = _scat(s0, rho, energy=en, wavelength=lam * 3.0 + 1.0)
     same("c04:energy-overrides-wavelength", r5, r7, floors, 1e-12, case, "%s energy=%r with a wavelength" % (s0, en))
 
+    # the compound as a Formula object that carries another density (and a name): the density keyword of the
+    # call states the density of the calculation, the object is left as it was
+    fobj = pt.formula(s0, density=rho * 2.5 + 0.125, name="preset")
+    snap = (fobj.structure, fobj.density, fobj.name)
+    r8 = _call(fobj, natural_density=rho, energy=en)
+    r9 = _call(s0, natural_density=rho, wavelength=lam_e)
+    same("c04:formula-object:natural_density", r8, r9, floors, 1e-12, case,
+         "Formula(%s, density=%r) vs the string, both called with natural_density=%r" % (s0, fobj.density, rho))
+    r10 = _call(fobj, wavelength=lam)
+    fac10 = dict((o, rho / fobj.density) for o in OUTPUTS)
+    fac10["penetration"] = fobj.density / rho
+    same("c04:formula-object:own-density", base, r10, floors, 1e-12, case,
+         "Formula(%s, density=%r) called without a density keyword" % (s0, fobj.density), fac10)
+    if (fobj.structure, fobj.density, fobj.name) != snap:
+        raise Violation("c04:formula-object:modified", "the Formula object changed: %r -> %r"
+                        % (snap, (fobj.structure, fobj.density, fobj.name)), case)
+
     # vector vs scalar
     how = v["vby"]
     vals, vlam = ng.wl_values(v["vform"], how, vec)      # whole A / whole meV for the integer forms
     arg = ng.wl_object(v["vform"], vals)[0]
     target = pt.formula(s_var if v["vvar"] else s0)        # parsed once; a Formula is a formula initializer
+    if v.get("vpreset"):
+        target.density = rho * 0.5 + 3.0                   # the density= keyword of the calls replaces it
     rv = _scat(target, rho, **{how: arg})
     for o in OUTPUTS:
         ng.check_shape("c04:vector", o, rv[o], (len(vec),), case)
@@ -330,6 +356,7 @@ def strat_relations():
                                   "intarray64"]),
         "vby": st.sampled_from(["wavelength", "wavelength", "energy"]),
         "vvar": st.booleans(),
+        "vpreset": st.booleans(),
     })
 
 
